@@ -32,6 +32,11 @@ WHAT IS ENUMERATED
   * FAULTS: save() once more per recorded operation with ONE injected OSError at exactly
     that operation (rename: EBUSY / EXDEV / EACCES / EPERM; data operations EBUSY / ENOSPC);
     clean-up and fallback paths are recorded and judged like any trace;
+  * PARTIAL SUCCESS: save() once more per recorded write with that write accepting only k
+    bytes (0, 1, half, all but one): os.write and raw file objects return the short count
+    WITHOUT raising; a buffered / text writer's retry fails with EFBIG after the k bytes
+    reached the file.  A save() that returns normally must have saved the complete new
+    content; old-or-new is demanded at every crash point as always;
   * PATH KINDS: the settings path in a nested directory, as a symbolic link to a file in the
     same / in another directory, as a relative path (cwd inside the sandbox), each ordinary
     and faulted;
@@ -53,7 +58,8 @@ import _io
 RULE = ("scenario = (initial directory, path kind, new content, optional single injected fault); initial directories: "
         "fixed and PRNG old contents (no file, empty device list, small, large, unicode) and every distinct crash state "
         "of a previous save() (leftover temp files); path kinds: plain, nested directory, symlink to same/other "
-        "directory, relative path; faults: one OSError at each recorded file operation (rename with 4 errnos); one case "
+        "directory, relative path; faults: one OSError at each recorded file operation (rename with 4 errnos), each write accepting only k bytes "
+        "(short count without error for os.write / raw files, EFBIG on the buffered writer's retry); one case "
         "= one crash point (operation boundary x persisted prefix) of the real save() trace of a scenario; non-trivial "
         "= the crash point lies strictly inside the save or inside a write; distinct = (scenario, boundary, prefix)")
 ASSUMPTIONS = [
@@ -165,8 +171,23 @@ class _Proxy:
         rec = self._rec
         if rec.fail_write:
             raise OSError(28, "No space left on device (injected by harness/c15.py)")
-        rec.attempt("write")
         b = self._bytes(data)
+        k = rec.short_here(len(b))
+        if k is not None:
+            # the kernel takes only k bytes.  A raw (unbuffered) file object reports the short
+            # count; a buffered / text writer retries, and the retry fails (EFBIG: file size limit)
+            part = b[:k]
+            raw = isinstance(self._fh, io.RawIOBase)
+            rec.add(("w", self._fid, part), "w:%s:%s" % (rec.tok(self._key), part.hex() or "-"))
+            rec.add(("f", self._fid), "f:" + rec.tok(self._key))
+            if raw:
+                self._fh.write(part)
+                return k
+            self._fh.flush()
+            os_write_real = rec._os_write
+            os_write_real(self._fh.fileno(), part)
+            raise OSError(27, "File too large (short write of %d bytes, then error; injected by harness/c15.py)" % k)
+        rec.attempt("write")
         rec.add(("w", self._fid, b), "w:%s:%s" % (rec.tok(self._key), b.hex() or "-"))
         return self._fh.write(data)
 
@@ -210,7 +231,7 @@ class _Proxy:
 
 
 class Recorder:
-    def __init__(self, root, settings_abs, fail_write=False, fault_at=None, fault_errno=16, pid=None):
+    def __init__(self, root, settings_abs, fail_write=False, fault_at=None, fault_errno=16, pid=None, short=None):
         self.root = os.path.abspath(root)
         self.realroot = os.path.realpath(root)
         self.settings_abs = settings_abs
@@ -222,6 +243,7 @@ class Recorder:
         self.attempts, self.fault_kind = 0, None
         self.toks = {}
         self.nfid = 0
+        self.short = short                # (operation index, k): that write accepts only k bytes
         self.pid = pid                    # the pid the saving process is to see (a restarted process
                                           # with the pid of the one that left the leftovers)
 
@@ -261,6 +283,15 @@ class Recorder:
         if self.fault_at is not None and n == self.fault_at:
             self.fault_kind = kind
             raise OSError(self.fault_errno, "injected fault at file operation %d (%s) by harness/c15.py" % (n, kind))
+
+    def short_here(self, n_bytes):
+        """Partial success: is the operation about to be attempted the write that accepts only k
+        bytes?  Returns k (< n_bytes) or None; counts the attempt."""
+        if self.short is None or self.attempts != self.short[0]:
+            return None
+        self.attempts += 1
+        self.fault_kind = "short-write"
+        return max(0, min(self.short[1], n_bytes - 1))
 
     def new_fid(self):
         self.nfid += 1
@@ -330,11 +361,20 @@ class Recorder:
                 return wrap(os_fdopen(fd, mode, buffering, encoding, *a, **k), fid, key, encoding)
             return os_fdopen(fd, mode, buffering, encoding, *a, **k)
 
+        rec._os_write = os_write
+
         def oswrite(fd, data):
             if fd in rec.raw_fds:
                 fid, key = rec.raw_fds[fd]
-                rec.attempt("write")
                 b = bytes(data)
+                k = rec.short_here(len(b))
+                if k is not None:
+                    part = b[:k]
+                    rec.add(("w", fid, part), "w:%s:%s" % (rec.tok(key), part.hex() or "-"))
+                    rec.add(("f", fid), "f:" + rec.tok(key))
+                    os_write(fd, part)
+                    return k                      # short count, no error
+                rec.attempt("write")
                 rec.add(("w", fid, b), "w:%s:%s" % (rec.tok(key), b.hex() or "-"))
                 rec.add(("f", fid), "f:" + rec.tok(key))
             return os_write(fd, data)
@@ -635,7 +675,8 @@ def _uniq(devs):
 
 def run_scenario(ctx, loop, sc, full_prefixes, lean_jobs, want_states=False):
     """sc = {"pair", "kind", "old_hex" (None = no file), "extras" {rel: hex}, "new" devs,
-             "mode" None | "fail" | "fault:<n>:<errno>", "pid" (optional: os.getpid() as seen by save())}.
+             "mode" None | "fail" | "fault:<n>:<errno>" | "short:<n>:<k>" (operation n, a write, accepts only k
+             bytes), "expect_new_hex" (the file a complete save of the new content gives), "pid" (optional: os.getpid() as seen by save())}.
     Runs the real save() once and judges the recorded trace.  Returns
     {"n_ops", "states": distinct crash states [(target bytes, extras)]} or None."""
     from pyatv.storage.file_storage import FileStorage
@@ -670,8 +711,13 @@ def run_scenario(ctx, loop, sc, full_prefixes, lean_jobs, want_states=False):
         if isinstance(mode, str) and mode.startswith("fault:"):
             parts = mode.split(":")
             fault_at, fault_errno = int(parts[1]), int(parts[2]) if len(parts) > 2 else 16
-        rec = Recorder(box, abs_settings, fail_write=(mode == "fail"), fault_at=fault_at, fault_errno=fault_errno or 16,
-                       pid=sc.get("pid"))
+        short = None
+        if isinstance(mode, str) and mode.startswith("short:"):
+            parts = mode.split(":")
+            short = (int(parts[1]), int(parts[2]))
+            fault_at = short[0]
+        rec = Recorder(box, abs_settings, fail_write=(mode == "fail"), fault_at=None if short else fault_at,
+                       fault_errno=fault_errno or 16, pid=sc.get("pid"), short=short)
         # tokens of files that exist before the save (leftovers) are fixed first
         init_words = []
         for rel, data in sorted(initial.items()):
@@ -697,7 +743,8 @@ def run_scenario(ctx, loop, sc, full_prefixes, lean_jobs, want_states=False):
         trace, words = rec.raw, rec.words
         case = dict(sc, trace=words)
         if fault:
-            case["injected_fault"] = {"operation_index": fault_at, "operation": fault, "errno": fault_errno}
+            case["injected_fault"] = ({"operation_index": short[0], "operation": "write accepts only %d bytes" % short[1]} if short else
+                                      {"operation_index": fault_at, "operation": fault, "errno": fault_errno})
         ctx.note(("fault-" if fault else "") + "trace-shape:" + "".join(w[0] if not w.startswith("unknown") else "?" for w in words))
 
         unknown = [w for w in words if w.startswith("unknown-")]
@@ -721,8 +768,10 @@ def run_scenario(ctx, loop, sc, full_prefixes, lean_jobs, want_states=False):
         obs_final = _fresh_load(loop, abs_settings)
         if raised is None:
             if obs_final != ("ok", content_new):
-                ctx.fail("save-complete:content-differs" + (":leftover-directory" if extras else ""), case, obs_final, content_new,
-                         "after a completed save() a fresh load does not give the saved content"
+                ctx.fail("save-complete:content-differs" + (":leftover-directory" if extras else "") + (":after-" + fault if fault else ""),
+                         case, obs_final, content_new,
+                         "after a save() that returned normally a fresh load does not give the saved content"
+                         + (" (operation %d was a write that accepted only %d bytes)" % short if short else "")
                          + (" (the directory held leftovers of an earlier crashed save)" if extras else ""))
         else:
             if obs_final not in (("ok", content_old), ("ok", content_new)):
@@ -783,14 +832,17 @@ def run_scenario(ctx, loop, sc, full_prefixes, lean_jobs, want_states=False):
                              "%s%s%sprocess death after %d of %d file operations of save() (persisted prefix %d) leaves a settings "
                              "file that %s" % ("settings path kind %s: " % kind if kind != "plain" else "",
                                                "directory holds leftovers of an earlier crashed save: " if extras else "",
-                                               "with the %s at file operation %d failing (OSError %d), " % (fault, fault_at, fault_errno) if fault else "",
+                                               ("with the write at file operation %d accepting only %d bytes, " % short if short else
+                                                "with the %s at file operation %d failing (OSError %d), " % (fault, fault_at, fault_errno)) if fault else "",
                                                i, len(trace), k, "load() rejects" if obs[0] == "raises" else "is neither old nor new"))
             groups.append((tp, row))
         if replayable:
-            lean_jobs.append({"case": case, "old": old_bytes, "new": final_target if final_target is not None else b"",
+            want_new = bytes.fromhex(sc["expect_new_hex"]) if sc.get("expect_new_hex") is not None else final_target
+            lean_jobs.append({"case": case, "old": old_bytes, "new": want_new if want_new is not None else b"",
                               "init": init_words, "words": words, "groups": groups, "raised": raised, "fault": fault,
                               "final": final_target, "unknown": bool(unknown)})
-        return {"n_ops": len(trace), "states": states}
+        return {"n_ops": len(trace), "states": states, "words": words,
+                "final_hex": None if (final_target is None or raised is not None) else final_target.hex()}
     finally:
         os.chdir(cwd0)
         shutil.rmtree(root, ignore_errors=True)
@@ -842,6 +894,15 @@ def with_faults(ctx, loop, sc, full, jobs, want_states=False):
     res = run_scenario(ctx, loop, sc, full, jobs, want_states=want_states)
     if res is None or sc.get("mode") is not None:
         return res
+    expect = res.get("final_hex")
+    sc = dict(sc, expect_new_hex=expect) if expect is not None else sc
+    # partial success: each recorded write accepts only k bytes (0, 1, half, all but one)
+    for j, w in enumerate(res.get("words") or []):
+        if not w.startswith("w:"):
+            continue
+        n = len(w.split(":")[2]) // 2 if w.split(":")[2] != "-" else 0
+        for k in sorted({0, 1, n // 2, n - 1} & set(range(max(n, 1)))):
+            run_scenario(ctx, loop, dict(sc, mode="short:%d:%d" % (j, k)), False, jobs)
     for j in range(res["n_ops"]):
         first = dict(sc, mode="fault:%d:16" % j)
         jobs_before = len(jobs)
@@ -910,7 +971,7 @@ def run(ctx, only=None):
 
 def replay(ctx, failure):
     case = failure["case"]
-    sc = {k: case.get(k) for k in ("pair", "kind", "old_hex", "extras", "new", "mode", "pid")}
+    sc = {k: case.get(k) for k in ("pair", "kind", "old_hex", "extras", "new", "mode", "pid", "expect_new_hex")}
     c2 = type(ctx)(ctx.prop, ctx.tier, ctx.seed, ctx.driver.driver_rel)
     run(c2, only=[sc])
     return bool(c2.failures)
